@@ -274,7 +274,8 @@ def erase(sd):
 
 class Gen:
     def __init__(self, rng, keys=("a", "b", "c"), atoms=(1, 2, 3, "x", None, 0, True, 2.5), tags=("none",),
-                 max_depth=3, max_width=3, int_keys=False, p_list=0.3, p_tag=0.3, p_empty=0.1, list_elems_tagged=True):
+                 max_depth=3, max_width=3, int_keys=False, p_list=0.3, p_tag=0.3, p_empty=0.1, list_elems_tagged=True,
+                 p_call=0.0, leaf_extra=()):
         self.rng = rng
         self.keys = list(keys)
         self.atoms = list(atoms)
@@ -285,6 +286,8 @@ class Gen:
         self.p_tag = p_tag
         self.p_empty = p_empty
         self.list_elems_tagged = list_elems_tagged
+        self.p_call = p_call
+        self.leaf_extra = list(leaf_extra)
 
     def tag(self, sd, allowed=None):
         tags = allowed if allowed is not None else self.tags
@@ -300,6 +303,13 @@ class Gen:
 
     def node(self, depth, in_list=False):
         r = self.rng.random()
+        if self.p_call and self.rng.random() < self.p_call:
+            n = self.rng.randint(0, 2)
+            ks = self.rng.sample(self.keys, min(n, len(self.keys)))
+            sd = SD("call", None, [[key_of_py(k), leaf(self.rng.choice(self.atoms))] for k in ks], fn="m.f", form="tag")
+            return sd
+        if self.leaf_extra and self.rng.random() < 0.12:
+            return json.loads(json.dumps(self.rng.choice(self.leaf_extra)))
         if depth <= 0 or r < 0.35:
             sd = leaf(self.rng.choice(self.atoms))
         elif r < 0.35 + self.p_list * 0.65:
